@@ -25,8 +25,9 @@ import (
 func TestMain(m *testing.M) { hx.Main(m) }
 
 type Case struct {
-	P         string `json:"primary"`   // answer | noanswer | error
-	S         string `json:"secondary"` // answer | noanswer | error
+	P         string `json:"primary"`            // answer | noanswer | error | answer+error (leaves a response and returns an error: a failure)
+	S         string `json:"secondary"`          // answer | noanswer | error | answer+error
+	Deadline  int    `json:"caller_deadline_ms"` // 0 = the caller's context has no deadline; otherwise that far ahead
 	Standby   bool   `json:"always_standby"`
 	Threshold string `json:"threshold"` // never (1 h) | elapsed (1 ms) | finite (200 ms, primary answers at once: see finiteThreshold)
 	Order     string `json:"order"`     // p_first | s_first | together | p_only (secondary is never released)
@@ -37,8 +38,9 @@ type Case struct {
 
 func genCase(t *rapid.T) Case {
 	c := Case{
-		P:         rapid.SampledFrom([]string{"answer", "answer", "noanswer", "error"}).Draw(t, "p"),
-		S:         rapid.SampledFrom([]string{"answer", "answer", "noanswer", "error"}).Draw(t, "s"),
+		P:         rapid.SampledFrom([]string{"answer", "answer", "answer", "noanswer", "error", "answer+error"}).Draw(t, "p"),
+		S:         rapid.SampledFrom([]string{"answer", "answer", "answer", "noanswer", "error", "answer+error"}).Draw(t, "s"),
+		Deadline:  rapid.SampledFrom([]int{0, 0, 8000, 60000}).Draw(t, "deadline"),
 		Standby:   rapid.Bool().Draw(t, "standby"),
 		Threshold: rapid.SampledFrom([]string{"never", "never", "elapsed"}).Draw(t, "threshold"),
 		Order:     rapid.SampledFrom([]string{"p_first", "s_first", "together", "p_only"}).Draw(t, "order"),
@@ -63,11 +65,15 @@ type gated struct {
 	gate    chan struct{}
 	started atomic.Bool
 	ended   atomic.Bool
+	dl      atomic.Int64 // deadline of the context the plugin was run with (unix nanoseconds, 0 = none)
 }
 
 var errScripted = errors.New("scripted failure")
 
 func (g *gated) Exec(ctx context.Context, q *query_context.Context) error {
+	if d, ok := ctx.Deadline(); ok {
+		g.dl.Store(d.UnixNano())
+	}
 	g.started.Store(true)
 	defer g.ended.Store(true)
 	select {
@@ -81,6 +87,12 @@ func (g *gated) Exec(ctx context.Context, q *query_context.Context) error {
 		r.SetReply(q.Q())
 		r.Answer = []dns.RR{&dns.TXT{Hdr: dns.RR_Header{Name: q.Q().Question[0].Name, Rrtype: dns.TypeTXT, Class: dns.ClassINET, Ttl: 60}, Txt: []string{"from-" + g.name}}}
 		q.SetResponse(r)
+	case "answer+error":
+		r := new(dns.Msg)
+		r.SetReply(q.Q())
+		r.Answer = []dns.RR{&dns.TXT{Hdr: dns.RR_Header{Name: q.Q().Question[0].Name, Rrtype: dns.TypeTXT, Class: dns.ClassINET, Ttl: 60}, Txt: []string{"failed-" + g.name}}}
+		q.SetResponse(r)
+		return errScripted
 	case "error":
 		return errScripted
 	}
@@ -213,6 +225,26 @@ func runCase(c Case, ctx *hx.Ctx) *hx.Failure {
 	qCtx := query_context.NewContext(q)
 	cctx, cancel := context.WithCancel(context.Background())
 	defer cancel()
+	var callerDl time.Time
+	if c.Deadline > 0 {
+		callerDl = time.Now().Add(time.Duration(c.Deadline) * time.Millisecond)
+		var cancelDl context.CancelFunc
+		cctx, cancelDl = context.WithDeadline(cctx, callerDl)
+		defer cancelDl()
+	}
+	// a worker must be allowed to run as long as the caller is prepared to wait: its context must not end earlier
+	// than the caller's (a primary that answers within the threshold would otherwise be cut off)
+	workerDeadlines := func() *hx.Failure {
+		if callerDl.IsZero() {
+			return nil
+		}
+		for _, g := range []*gated{p, s} {
+			if d := g.dl.Load(); g.started.Load() && d != 0 && time.Unix(0, d).Before(callerDl.Add(-100*time.Millisecond)) {
+				return hx.Failf("C20/worker-cut-off-before-callers-deadline", "the caller's context ends in %d ms, but the %s was run with a context that ends %v earlier", c.Deadline, g.name, callerDl.Sub(time.Unix(0, d)).Round(time.Millisecond))
+			}
+		}
+		return nil
+	}
 	done := make(chan error, 1)
 	go func() { done <- fb.(sequence.Executable).Exec(cctx, qCtx) }()
 	returned := false
@@ -459,6 +491,12 @@ func runCase(c Case, ctx *hx.Ctx) *hx.Failure {
 		if s.started.Load() {
 			return hx.Failf("C20/secondary-started-early", "the primary answered within the threshold, always_standby is off, but the secondary was started")
 		}
+	}
+	if f := workerDeadlines(); f != nil {
+		return f
+	}
+	if c.Deadline > 0 {
+		ctx.Class("caller-has-deadline")
 	}
 	ctx.Classf("standby=%v", c.Standby)
 	ctx.Classf("threshold=%s", c.Threshold)
